@@ -550,7 +550,75 @@ func init() {
 	register("C09", genC09)
 }
 
+// genC09probe: several sessions multiplexed on one connection of the bare library server,
+// with scripted handlers; some handlers hand Reply a value the encoder must refuse (that
+// request gets no reply) or reply nothing. The other sessions must not notice.
+func genC09probe(r *Rand, p *Plan, tier string) {
+	p.Family = "mux-probe"
+	p.Scen.Server = "probe"
+	key := r.key()
+	cs := ClientSpec{Addr: clientAddr(0), Key: key, SrvKey: key}
+	type ss struct {
+		id   uint32
+		seq  int
+		typ  uint8
+		done bool
+	}
+	var sess []*ss
+	nSess := 2 + r.Intn(3)
+	for k := 0; k < nSess; k++ {
+		sess = append(sess, &ss{id: r.session() + uint32(k), seq: 1, typ: uint8(1 + r.Intn(3))})
+	}
+	fl := r.flags(true)
+	nPk := 3 + r.Intn(up(10))
+	for k := 0; k < nPk; k++ {
+		var live []*ss
+		for _, s := range sess {
+			if !s.done {
+				live = append(live, s)
+			}
+		}
+		if len(live) == 0 {
+			break
+		}
+		s := live[r.Intn(len(live))]
+		pk := &PktSpec{Ver: 0xc0, Type: s.typ, Seq: uint8(s.seq), Flags: fl, Session: s.id, Body: GenBody(r, PickOf(r, requestKinds(s.typ)...), false)}
+		cs.Ops = append(cs.Ops, Op{Kind: "send", Pkt: pk})
+		st := HStep{Next: 1}
+		switch c := r.Intn(20); {
+		case c < 3:
+			bad := GenBodyWide(r, replyKind(s.typ))
+			for tries := 0; bad.Sendable() && tries < 8; tries++ {
+				bad = GenBodyWide(r, replyKind(s.typ))
+			}
+			st.Reply = &bad
+		case c < 5:
+			// no reply at all
+		default:
+			rep := smallReply(r, s.typ)
+			if rep.Kind == model.KAuthenReply && nth(rep.N, 0) == 6 {
+				rep.N[0] = 5
+			}
+			st.Reply = rep
+		}
+		if r.Chance(25) || s.seq >= 253 {
+			st.Next = 0
+			s.done = true
+		}
+		cs.Handler = append(cs.Handler, st)
+		s.seq += 2
+	}
+	cs.Ops = append(cs.Ops, Op{Kind: PickOf(r, "idle", "close")})
+	p.Scen.Clients = []ClientSpec{cs}
+	p.Tape = r.Tape(1200)
+	p.MaxSteps = 3000
+}
+
 func genC09(r *Rand, p *Plan, tier string) {
+	if r.Chance(10) {
+		genC09probe(r, p, tier)
+		return
+	}
 	p.Family = "mux"
 	p.Scen.Server = "ref"
 	p.Scen.Format = PickOf(r, "yaml", "json")
